@@ -292,8 +292,11 @@ def bind_all(graphs, tier, kinds=("groupnorm", "vn", "maxnormpool", "conv")):
         if "maxnormpool" in kinds:
             items += [("maxnormpool", 2, True, s0 + 7, graphs), ("maxnormpool", 3, True, s0 + 8, graphs), ("maxnormpool", 2, False, s0 + 9, graphs)]
         if "conv" in kinds:
-            items += [("conv", 2, m, s0 + 10 + i, graphs) for i, m in enumerate(["auto", "mean", "scalar", "true", "false"])]
-            items += [("conv", 3, "auto", s0 + 20, graphs)]
+            # quick: the four distinct bias behaviours in d = 2 (True is normalised to "auto" by the constructor); thorough adds True and d = 3
+            modes = ["auto", "mean", "scalar", "false"] if tier == "quick" else ["auto", "mean", "scalar", "true", "false"]
+            items += [("conv", 2, m, s0 + 10 + i, graphs) for i, m in enumerate(modes)]
+            if tier != "quick":
+                items += [("conv", 3, "auto", s0 + 20, graphs)]
     res = []
     for chunk in core.pmap(_bind_wrap, items, procs=8):
         res += chunk[0]
